@@ -30,25 +30,39 @@ import (
 )
 
 type c18Case struct {
-	Workload  string      `json:"workload"`   // A | B | http | custom
-	TrigPoint string      `json:"trig_point"` // a yield point, "dial" (k-th dial begins), or "end"
-	TrigOcc   int         `json:"trig_occ"`
-	Rules     []*HookRule `json:"rules,omitempty"`
+	Workload      string      `json:"workload"`                  // A | B | C (as B, but the connection is cut inside a frame: read-error path) | http | custom
+	CancelAtClose bool        `json:"cancel_at_close,omitempty"` // contexts of the calls in flight are cancelled right after the closer was invoked
+	TrigPoint     string      `json:"trig_point"`                // a yield point, "dial" (k-th dial begins), or "end"
+	TrigOcc       int         `json:"trig_occ"`
+	Rules         []*HookRule `json:"rules,omitempty"`
 }
 
 type c18Run struct {
-	rig     *Rig
-	cl      *RigClient
-	calls   []*Pending
-	subs    []*Pending
-	closed  chan struct{} // closed when the closer returned
-	closeOK int32
-	fired   int32
+	rig           *Rig
+	cl            *RigClient
+	calls         []*Pending
+	subs          []*Pending
+	closed        chan struct{} // closed when the closer returned
+	closeOK       int32
+	fired         int32
+	cancelAtClose bool
+	mu            sync.Mutex
 }
 
 func (r *c18Run) fireClose() {
 	if !atomic.CompareAndSwapInt32(&r.fired, 0, 1) {
 		return
+	}
+	if r.cancelAtClose {
+		go func() {
+			time.Sleep(2 * time.Millisecond)
+			r.mu.Lock()
+			ps := append([]*Pending{}, r.calls...)
+			r.mu.Unlock()
+			for _, p := range ps {
+				p.Cancel()
+			}
+		}()
 	}
 	go func() {
 		if r.cl.Close(6 * time.Second) {
@@ -64,6 +78,8 @@ func (r *c18Run) isClosing() bool { return atomic.LoadInt32(&r.fired) == 1 }
 func (r *c18Run) workload(kind string) {
 	rig, cl := r.rig, r.cl
 	add := func(p *Pending) *Pending {
+		r.mu.Lock()
+		defer r.mu.Unlock()
 		if p.Kind == "sub" {
 			r.subs = append(r.subs, p)
 		} else {
@@ -93,10 +109,24 @@ func (r *c18Run) workload(kind string) {
 		rig.W.WaitStarted(g1.Tok, 300*time.Millisecond)
 		rig.W.WaitStarted(g2.Tok, 300*time.Millisecond)
 	})
-	if kind == "B" {
+	if kind == "B" || kind == "C" {
 		step(func() {
 			rig.Proxy.SetPolicy("reject")
-			rig.Proxy.CutAll("rst")
+			if kind == "C" {
+				// cut the connection in the middle of a large server->client frame: the client's read-error path
+				rig.Proxy.AddFault(&Fault{Conn: 0, Dir: "s2c", Frame: rig.Proxy.FrameCounts()[0]["s2c"], Pos: "mid", Kind: "rst"})
+				bigc := add(rig.Go(cl, "call", rig.Tok("bigc"), Plan{Size: 30000}))
+				select {
+				case <-bigc.Done:
+				case <-time.After(500 * time.Millisecond):
+				}
+				if rig.Proxy.WaitFault(100*time.Millisecond) == nil {
+					rig.Proxy.ClearFaults()
+					rig.Proxy.CutAll("rst")
+				}
+			} else {
+				rig.Proxy.CutAll("rst")
+			}
 			// calls issued while the client is between connections
 			for i := 0; i < 3; i++ {
 				add(rig.Go(cl, "call", rig.Tok("w"), Plan{}))
@@ -159,7 +189,7 @@ func runC18(c c18Case, countOnly bool) (*Violation, map[string]int, string) {
 	if err != nil {
 		return nil, nil, "client"
 	}
-	run := &c18Run{rig: rig, cl: cl, closed: make(chan struct{})}
+	run := &c18Run{rig: rig, cl: cl, closed: make(chan struct{}), cancelAtClose: c.CancelAtClose}
 	rules := append([]*HookRule{}, c.Rules...)
 	if !countOnly {
 		switch c.TrigPoint {
@@ -313,6 +343,9 @@ var c18Points = []string{"req.accepted", "inflight.registered", "write.locked", 
 
 func c18NT(c c18Case) (bool, []string) {
 	cl := []string{"workload_" + c.Workload, "at_" + c.TrigPoint}
+	if c.CancelAtClose {
+		cl = append(cl, "cancel_at_close")
+	}
 	if len(c.Rules) > 0 {
 		cl = append(cl, "with_delays")
 	}
@@ -325,7 +358,7 @@ func TestC18(t *testing.T) {
 	rec := NewRec("C18", c18Rule)
 	defer rec.Finish(t)
 	rec.EnableJournal()
-	rec.RequireClass("workload_A", "workload_B", "workload_http", "workload_custom", "at_dial", "at_reconnect.begin", "at_frame.read", "at_write.locked", "at_resp.found", "at_chan.sink", "with_delays")
+	rec.RequireClass("workload_C", "cancel_at_close", "workload_A", "workload_B", "workload_http", "workload_custom", "at_dial", "at_reconnect.begin", "at_frame.read", "at_write.locked", "at_resp.found", "at_chan.sink", "with_delays")
 	run := func(ft failer, c c18Case) {
 		nt, cl := c18NT(c)
 		rec.Run(ft, c, nt, cl, func() *Violation {
@@ -363,7 +396,7 @@ func TestC18(t *testing.T) {
 		run(t, c18Case{Workload: "http", TrigPoint: "end"})
 		run(t, c18Case{Workload: "custom", TrigPoint: "end"})
 		k := 0
-		for _, w := range []string{"A", "B"} {
+		for _, w := range []string{"A", "B", "C"} {
 			m := getCounts(w)
 			run(t, c18Case{Workload: w, TrigPoint: "end"})
 			keys := make([]string, 0, len(m))
@@ -385,7 +418,7 @@ func TestC18(t *testing.T) {
 						continue
 					}
 					// quick: the first two, the last, and a seed-dependent stride in between
-					if !thorough() && occ > 2 && occ != n && (occ+envInt("VERIF_SEED", 1))%7 != 0 {
+					if !thorough() && occ > 2 && occ != n && ((occ+envInt("VERIF_SEED", 1))%11 != 0 || w == "C") {
 						continue
 					}
 					run(t, c18Case{Workload: w, TrigPoint: pt, TrigOcc: occ})
@@ -400,17 +433,23 @@ func TestC18(t *testing.T) {
 					Rules: []*HookRule{{Point: "exit.exiting-closed", Occ: 0, Side: "client", DelayU: 30000}}})
 			}
 		}
+		// contexts cancelled while the closer is at work (slow stop / slow exit)
+		for _, w := range []string{"A", "B", "C"} {
+			for _, pt := range []string{"resp.delivered", "write.locked", "req.accepted"} {
+				run(t, c18Case{Workload: w, TrigPoint: pt, TrigOcc: 3, CancelAtClose: true, Rules: []*HookRule{{Point: "stop.begin", Occ: 0, Side: "client", DelayU: 15000}}})
+			}
+		}
 		rec.Exhaustive(false)
 	})
 	rec.Rapid(t, "rapid", func(rt *rapid.T) {
-		w := rapid.SampledFrom([]string{"A", "B", "B"}).Draw(rt, "workload")
+		w := rapid.SampledFrom([]string{"A", "B", "B", "C", "C"}).Draw(rt, "workload")
 		m := getCounts(w)
 		pt := rapid.SampledFrom(c18Points).Draw(rt, "point")
 		n := m[pt+"|client"]
 		if n < 1 {
 			n = 1
 		}
-		c := c18Case{Workload: w, TrigPoint: pt, TrigOcc: rapid.IntRange(1, n+1).Draw(rt, "occ")}
+		c := c18Case{Workload: w, TrigPoint: pt, TrigOcc: rapid.IntRange(1, n+1).Draw(rt, "occ"), CancelAtClose: rapid.IntRange(0, 2).Draw(rt, "cancelatclose") == 0}
 		nr := rapid.IntRange(0, 2).Draw(rt, "nrules")
 		for i := 0; i < nr; i++ {
 			c.Rules = append(c.Rules, &HookRule{Point: rapid.SampledFrom([]string{"exit.exiting-closed", "stop.begin", "closechans.begin", "reconnect.begin", "write.locked"}).Draw(rt, fmt.Sprintf("pt%d", i)),
